@@ -295,13 +295,13 @@ class BytesInstruction(MichelsonInstruction, prim='BYTES'):
         a = cast(Union[NatType, IntType], stack.pop1())
         a.assert_type_in(NatType, IntType)
         int_val = int(a)
-        signed = isinstance(a, IntType)
+        signed = not isinstance(a, NatType)  # NOTE: NatType derives from IntType
         if signed:
             length = (8 + (int_val + (int_val < 0)).bit_length()) // 8
         else:
             length = (7 + int_val.bit_length()) // 8
-        # NOTE: the shortest big-endian encoding of natural number or integer n
-        byte_val = int_val.to_bytes(length, 'big', signed=signed).lstrip(b'\x00')
+        # NOTE: the shortest big-endian encoding of natural number or integer n (two's complement for int), zero is empty
+        byte_val = b'' if int_val == 0 else int_val.to_bytes(length, 'big', signed=signed)
         res = BytesType.from_value(byte_val)
         stack.push(res)
         stdout.append(f'{cls.prim} / {repr(a)} => {repr(res)}')
